@@ -247,6 +247,16 @@ pub fn check_state(sim: &mut Sim, snap: &VerifSnapshot, m: Mon, ex: &mut Exercis
         }
         if any_failed {
             ex.hit("C07.state-with-failure");
+            // a stall after a failure: jobs without a failed ancestor that the failure-free twin
+            // executes will never be executed (the stall itself is C05's business)
+            if !fin && ready.is_empty() && running.is_empty() && !sim.aborted && !sim.refr.ambiguous {
+                for j in 0..n {
+                    let failed_anc = g.ancestors(j).iter().any(|a| matches!(sim.res[*a], Res::Failed | Res::Changed));
+                    if g.jobs[j].kind != Kind::E && !failed_anc && sim.refr.exec[j] && !sim.started[j] && !matches!(sim.res[j], Res::Failed | Res::Changed) {
+                        v.push(viol("C07", "unaffected-job-starved", format!("{} has no failed ancestor and is executed without the failure, but the evaluation stalls before it is offered", g.jobs[j].id)));
+                    }
+                }
+            }
         }
         for j in 0..n {
             let id = &g.jobs[j].id;
